@@ -170,7 +170,8 @@ def make_source(rng, sc, zone, sign, zones=None, amax=9.0, limit_overlap=True):
                 sc["cov"][foot] += 1
         a = a_px * cd
         return {"ra": ra, "dec": dec, "peak": peak, "a": a, "b": a * ratio, "pa": pa,
-                "rms": abs(peak) * rng.uniform(0.002, 0.05), "zone": zone,
+                # mostly high signal to noise; sometimes below the default 4-sigma mask level
+                "rms": abs(peak) * (rng.uniform(0.002, 0.05) if rng.random() < 0.8 else rng.uniform(0.3, 1.2)), "zone": zone,
                 "row": row, "col": col, "sign": 1 if peak > 0 else -1}
     return None
 
